@@ -387,9 +387,6 @@ def get(prop):
     if not _REG:
         for cls in (C01, C02, C03, C04, C05, C06, C07, C10, C11, C12, C13, C15, C18):
             _REG[cls.prop] = cls()
-        try:
-            from dst import twins
-            twins.register(_REG)
-        except ImportError:
-            pass
+        from dst import twins
+        twins.register(_REG)
     return _REG[prop]
